@@ -31,6 +31,7 @@ def run(ctx, crate):
     rule_struct_writers(ctx, crate)
     rule_slot_identity(ctx, crate)
     rule_head_only_reap(ctx, crate)
+    D.rule_finished_draws_forced(ctx, crate)
 
 
 def rule_multi_exclusive(ctx, crate, rule="R-MULTI-EXCLUSIVE"):
